@@ -268,7 +268,17 @@ int64_t carquet_rle_decoder_skip(
  * ============================================================================
  */
 
-static void write_varint(carquet_buffer_t* buf, uint32_t value) {
+/* Append to the encoder's buffer; an allocation failure is remembered in
+ * enc->status so that put()/flush() report it instead of dropping bytes. */
+static void enc_append(carquet_rle_encoder_t* enc, const void* data, size_t size) {
+    if (enc->status != CARQUET_OK) return;
+    carquet_status_t status = carquet_buffer_append(enc->buffer, data, size);
+    if (status != CARQUET_OK) {
+        enc->status = status;
+    }
+}
+
+static void write_varint(carquet_rle_encoder_t* enc, uint32_t value) {
     uint8_t bytes[5];
     int len = 0;
 
@@ -278,14 +288,14 @@ static void write_varint(carquet_buffer_t* buf, uint32_t value) {
     }
     bytes[len++] = (uint8_t)value;
 
-    carquet_buffer_append(buf, bytes, (size_t)len);
+    enc_append(enc, bytes, (size_t)len);
 }
 
 static void flush_rle(carquet_rle_encoder_t* enc) {
     if (enc->repeat_count == 0) return;
 
     /* Write RLE header: (count << 1) | 0 */
-    write_varint(enc->buffer, (uint32_t)(enc->repeat_count << 1));
+    write_varint(enc, (uint32_t)(enc->repeat_count << 1));
 
     /* Write value (ceil(bit_width/8) bytes) */
     int value_bytes = (enc->bit_width + 7) / 8;
@@ -293,7 +303,7 @@ static void flush_rle(carquet_rle_encoder_t* enc) {
     for (int i = 0; i < value_bytes; i++) {
         bytes[i] = (uint8_t)(enc->prev_value >> (i * 8));
     }
-    carquet_buffer_append(enc->buffer, bytes, (size_t)value_bytes);
+    enc_append(enc, bytes, (size_t)value_bytes);
 
     enc->repeat_count = 0;
 }
@@ -308,13 +318,13 @@ static void flush_bitpack(carquet_rle_encoder_t* enc) {
 
     /* Write bit-packed header: (num_groups << 1) | 1 */
     int num_groups = (int)((enc->bitpack_total + 7) / 8);
-    write_varint(enc->buffer, (uint32_t)((num_groups << 1) | 1));
+    write_varint(enc, (uint32_t)((num_groups << 1) | 1));
 
     /* Write packed data for all groups */
     uint8_t packed[32];  /* Max for 32-bit values, 8 values */
     for (int g = 0; g < num_groups; g++) {
         carquet_bitpack8_32(enc->bitpack_buffer, enc->bit_width, packed);
-        carquet_buffer_append(enc->buffer, packed, (size_t)enc->bit_width);
+        enc_append(enc, packed, (size_t)enc->bit_width);
 
         /* Shift remaining values */
         /* Note: This simplified impl assumes we flush after each group */
@@ -392,7 +402,7 @@ carquet_status_t carquet_rle_encoder_put(
 
     enc->prev_value = value;
     enc->repeat_count = 1;
-    return CARQUET_OK;
+    return enc->status;
 }
 
 carquet_status_t carquet_rle_encoder_put_repeat(
@@ -433,7 +443,7 @@ carquet_status_t carquet_rle_encoder_flush(carquet_rle_encoder_t* enc) {
         }
     }
 
-    return CARQUET_OK;
+    return enc->status;
 }
 
 /* ============================================================================
